@@ -183,6 +183,7 @@ type FnVC struct {
 	lastInlined     bool
 	fnHints         map[string]*ssa.Function
 	letMemo         map[string]string
+	covers          []string
 	letShapes       []letShape
 	ftParams        []string
 }
